@@ -11,7 +11,7 @@
 (* deviation is a named branch enabled by the constant Known; with          *)
 (* Known = {} this is the strict specification.                             *)
 (***************************************************************************)
-EXTENDS Integers, Sequences, FiniteSets, TLC, SequencesExt, FiniteSetsExt
+EXTENDS Integers, Sequences, FiniteSets, TLC, TLCExt, SequencesExt, FiniteSetsExt
 
 CONSTANTS Colls,      \* names of collections
           Actors,     \* names of actors (each runs transactions, one at a time)
@@ -64,12 +64,13 @@ Pred(p, v) == CASE p.f = "ge"   -> v >= p.a
                 [] OTHER        -> v = TRUE
 
 \* lexicographic order on sequences of integers (Go's string order on bytes)
-RECURSIVE SeqLeq(_, _)
-SeqLeq(a, b) == IF a = <<>> THEN TRUE
-                ELSE IF b = <<>> THEN FALSE
-                ELSE IF Head(a) # Head(b) THEN Head(a) < Head(b)
-                ELSE SeqLeq(Tail(a), Tail(b))
+SeqLeq(a, b) ==
+  LET n == IF Len(a) < Len(b) THEN Len(a) ELSE Len(b)
+      d == {i \in 1..n : a[i] # b[i]}
+  IN IF d = {} THEN Len(a) <= Len(b) ELSE a[MinOf(d)] < b[MinOf(d)]
 
+\* Folds are written with FoldLeft (evaluated eagerly by TLC's Java override): recursive operators that thread an
+\* accumulator through LET definitions were re-evaluated exponentially often by TLC.
 -----------------------------------------------------------------------------
 (* The state of one collection.                                             *)
 
@@ -97,12 +98,28 @@ EmptyStore ==
 KeyCol(S) == IF \E n \in DOMAIN S.reg : S.reg[n].k = "key"
              THEN CHOOSE n \in DOMAIN S.reg : S.reg[n].k = "key" ELSE None
 
-FillerSize(F) == LET Sum[T \in SUBSET F] == IF T = {} THEN 0
-                       ELSE LET x == CHOOSE x \in T : TRUE IN (x[2] - x[1] + 1) + Sum[T \ {x}]
-                 IN Sum[F]
+FillerSize(F) == FoldLeft(LAMBDA acc, x : acc + (x[2] - x[1] + 1), 0, SetToSeq(F))
 InFiller(F, o) == \E x \in F : x[1] <= o /\ o <= x[2]
 CountOf(S) == Cardinality(S.fill) + FillerSize(S.filler)
 NBlocks(S) == Len(S.lastId)
+
+\* ---- runs of value-less rows
+BlocksOf(lo, hi) == BlockOf(lo)..BlockOf(hi)
+Clip(lo, hi, b) == <<IF lo > b * BlockSize THEN lo ELSE b * BlockSize,
+                     IF hi < (b + 1) * BlockSize - 1 THEN hi ELSE (b + 1) * BlockSize - 1>>
+
+\* insert the run, merging with adjacent runs so that runs stay maximal
+AddRun(F, lo, hi) ==
+  LET left  == {x \in F : x[2] = lo - 1}
+      right == {x \in F : x[1] = hi + 1}
+      nlo == IF left = {} THEN lo ELSE (CHOOSE x \in left : TRUE)[1]
+      nhi == IF right = {} THEN hi ELSE (CHOOSE x \in right : TRUE)[2]
+  IN (F \ (left \cup right)) \cup {<<nlo, nhi>>}
+\* remove lo..hi from the runs (the range lies inside one run)
+CutRun(F, lo, hi) ==
+  LET x == CHOOSE x \in F : x[1] <= lo /\ hi <= x[2] IN
+  (F \ {x}) \cup (IF x[1] < lo THEN {<<x[1], lo - 1>>} ELSE {}) \cup (IF hi < x[2] THEN {<<hi + 1, x[2]>>} ELSE {})
+
 
 \* grow the per-block arrays so that block b exists (commitCapacity)
 Grow(S, b) == IF b < NBlocks(S) THEN S
@@ -122,11 +139,8 @@ OfOffset(ops, o) == SelectSeq(ops, LAMBDA e : e.o = o)
 BufOps(bufs, n) == IF n \in DOMAIN bufs THEN bufs[n] ELSE <<>>
 
 \* replace, in a buffer, the ops of block b by their rewritten form (positions kept), then append the tail
-RECURSIVE Rewrite(_, _, _)
 Rewrite(ops, b, rw) ==
-  IF ops = <<>> THEN <<>>
-  ELSE IF BlockOf(Head(ops).o) = b THEN <<Head(rw)>> \o Rewrite(Tail(ops), b, Tail(rw))
-  ELSE <<Head(ops)>> \o Rewrite(Tail(ops), b, rw)
+  [i \in DOMAIN ops |-> IF BlockOf(ops[i].o) = b THEN rw[Cardinality({j \in 1..i : BlockOf(ops[j].o) = b})] ELSE ops[i]]
 
 -----------------------------------------------------------------------------
 (* Applying one block of a transaction (everything under the write latch).  *)
@@ -159,17 +173,14 @@ ClearRow(R, o, F) ==   \* R = [S, fired]
                    !.seek = KeyUnset(S, o, F)],
    fired |-> [n \in DOMAIN R.fired |-> Append(R.fired[n], [k |-> "del", o |-> o, v |-> 0])]]
 
-RECURSIVE RowPass(_, _, _)
-RowPass(R, ops, F) ==
-  IF ops = <<>> THEN R ELSE
-  LET e == Head(ops)
-      S == R.S
-      R1 == CASE e.k = "ins" /\ (~e.x \/ "failed-applied" \in F)
-                   -> [R EXCEPT !.S.fill = @ \cup {e.o}, !.S.live = @ \cup {e.o}]
-              [] e.k = "del" /\ (e.o \in S.live \/ "dead-delete" \in F)
-                   -> ClearRow([R EXCEPT !.S.fill = @ \ {e.o}, !.S.live = @ \ {e.o}], e.o, F)
-              [] OTHER -> R
-  IN RowPass(R1, Tail(ops), F)
+RowStep(R, e, F) ==
+  LET S == R.S IN
+  CASE e.k = "ins" /\ (~e.x \/ "failed-applied" \in F)
+         -> [R EXCEPT !.S.fill = @ \cup {e.o}, !.S.live = @ \cup {e.o}]
+    [] e.k = "del" /\ (e.o \in S.live \/ "dead-delete" \in F)
+         -> ClearRow([R EXCEPT !.S.fill = @ \ {e.o}, !.S.live = @ \ {e.o}], e.o, F)
+    [] OTHER -> R
+RowPass(R, ops, F) == FoldLeft(LAMBDA acc, e : RowStep(acc, e, F), R, ops)
 
 \* ---- first pass over one data column: stores and merges, in buffer order
 KeySet(seek, o, v) == {p \in seek : p[1] # v /\ p[2] # o} \cup {<<v, o>>}
@@ -181,15 +192,12 @@ KeySet(seek, o, v) == {p \in seek : p[1] # v /\ p[2] # o} \cup {<<v, o>>}
 \* if it belongs to this block it also contains the puts appended by merges of EARLIER sections, which are thus
 \* applied a second time, after the last section's own operations (overwriting what those did to the same row).
 \* C.nlast = number of this block's operations that lie in the last section; C.tail0 = puts appended before it.
-RECURSIVE Reapply(_, _)
-Reapply(C, puts) == IF puts = <<>> THEN C ELSE
-  Reapply([C EXCEPT !.has = @ \cup {Head(puts).o}, !.data = [@ EXCEPT ![Head(puts).o] = Head(puts).v]], Tail(puts))
+Reapply(C, puts) ==
+  FoldLeft(LAMBDA acc, p : [acc EXCEPT !.has = @ \cup {p.o}, !.data = [@ EXCEPT ![p.o] = p.v]], C, puts)
 
-RECURSIVE Pass1(_, _, _, _, _)
-Pass1(desc, C0, ops, live, F) ==      \* C = [has, data, seek, canon, out, tail, nlast, tail0]
-  LET C == IF Len(ops) = C0.nlast THEN [C0 EXCEPT !.tail0 = C0.tail, !.nlast = -1] ELSE C0 IN
-  IF ops = <<>> THEN (IF "swap-append" \in F THEN Reapply(C, C.tail0) ELSE C) ELSE
-  LET e     == Head(ops)
+\* C = [has, data, seek, canon, out, tail, nlast, tail0, left]   (left = operations still to visit)
+Step1(desc, C0, e, live, F) ==
+  LET C == IF C0.left = C0.nlast THEN [C0 EXCEPT !.tail0 = C0.tail, !.nlast = -1] ELSE C0
       drop  == \/ e.k = "skip"
                \/ (e.x /\ "failed-applied" \notin F)
                \/ (e.o \notin live /\ "write-dead" \notin F)
@@ -200,33 +208,33 @@ Pass1(desc, C0, ops, live, F) ==      \* C = [has, data, seek, canon, out, tail,
       putop == [k |-> "put", o |-> e.o, v |-> nv, x |-> e.x]
       clash == desc.k = "enum" /\ nv \in Collide
       stored == IF clash /\ "enum-collide" \in F /\ C.canon # <<>> THEN C.canon[1] ELSE nv
-      C1 == IF drop THEN [C EXCEPT !.out = Append(@, [e EXCEPT !.k = "skip"])]
-            ELSE [C EXCEPT !.has  = IF desc.k = "bool" /\ nv = FALSE THEN @ \ {e.o} ELSE @ \cup {e.o},
-                           !.data = [@ EXCEPT ![e.o] = stored],
-                           !.seek = IF desc.k = "key" THEN KeySet(@, e.o, nv) ELSE @,
-                           !.canon = IF clash /\ @ = <<>> THEN <<nv>> ELSE @,
-                           !.out  = Append(@, IF moved THEN [e EXCEPT !.k = "skip"] ELSE putop),
-                           !.tail = IF moved THEN Append(@, putop) ELSE @]
-  IN Pass1(desc, C1, Tail(ops), live, F)
+  IN IF drop THEN [C EXCEPT !.out = Append(@, [e EXCEPT !.k = "skip"]), !.left = @ - 1]
+     ELSE [C EXCEPT !.has  = IF desc.k = "bool" /\ nv = FALSE THEN @ \ {e.o} ELSE @ \cup {e.o},
+                    !.data = [@ EXCEPT ![e.o] = stored],
+                    !.seek = IF desc.k = "key" THEN KeySet(@, e.o, nv) ELSE @,
+                    !.canon = IF clash /\ @ = <<>> THEN <<nv>> ELSE @,
+                    !.out  = Append(@, IF moved THEN [e EXCEPT !.k = "skip"] ELSE putop),
+                    !.tail = IF moved THEN Append(@, putop) ELSE @,
+                    !.left = @ - 1]
+Pass1(desc, C0, ops, live, F) ==
+  LET C == FoldLeft(LAMBDA acc, e : Step1(desc, acc, e, live, F), [C0 EXCEPT !.left = Len(ops)], ops)
+  IN IF "swap-append" \in F THEN Reapply(C, C.tail0) ELSE C
 
 \* ---- second pass: computed columns see the final values, in order
-RECURSIVE Pass2(_, _, _, _)
-Pass2(R, col, ops, isBool) ==        \* R = [S, fired]
-  IF ops = <<>> THEN R ELSE
-  LET e == Head(ops)
-      S == R.S
+Step2(R, col, e, isBool) ==        \* R = [S, fired]
+  LET S == R.S
       gone == isBool /\ e.v = FALSE       \* a false bool is written as a delete operation
       IX == S.ix
       SX == S.sx
-      R1 == IF e.k = "skip" THEN R ELSE
-            [S |-> [S EXCEPT
-               !.ix = [n \in DOMAIN IX |-> IF IX[n].col # col THEN IX[n]
-                         ELSE [IX[n] EXCEPT !.set = IF ~gone /\ Pred(IX[n].p, e.v) THEN @ \cup {e.o} ELSE @ \ {e.o}]],
-               !.sx = [n \in DOMAIN SX |-> IF SX[n].col # col THEN SX[n]
-                         ELSE [SX[n] EXCEPT !.items = IF gone THEN {it \in @ : it[2] # e.o}
-                                                     ELSE {it \in @ : it[2] # e.o} \cup {<<e.v, e.o>>}]]],
-             fired |-> Fire(R.fired, S, col, IF gone THEN "del" ELSE "put", e.o, IF gone THEN 0 ELSE e.v)]
-  IN Pass2(R1, col, Tail(ops), isBool)
+  IN IF e.k = "skip" THEN R ELSE
+     [S |-> [S EXCEPT
+        !.ix = [n \in DOMAIN IX |-> IF IX[n].col # col THEN IX[n]
+                  ELSE [IX[n] EXCEPT !.set = IF ~gone /\ Pred(IX[n].p, e.v) THEN @ \cup {e.o} ELSE @ \ {e.o}]],
+        !.sx = [n \in DOMAIN SX |-> IF SX[n].col # col THEN SX[n]
+                  ELSE [SX[n] EXCEPT !.items = IF gone THEN {it \in @ : it[2] # e.o}
+                                              ELSE {it \in @ : it[2] # e.o} \cup {<<e.v, e.o>>}]]],
+      fired |-> Fire(R.fired, S, col, IF gone THEN "del" ELSE "put", e.o, IF gone THEN 0 ELSE e.v)]
+Pass2(R, col, ops, isBool) == FoldLeft(LAMBDA acc, e : Step2(acc, col, e, isBool), R, ops)
 
 \* ---- one column buffer: R = [S, fired, bufs]
 ColPass(R, n, b, F) ==
@@ -238,7 +246,7 @@ ColPass(R, n, b, F) ==
       nlast == IF other = {} THEN Len(B) ELSE Len(B) - MaxOf(other)   \* this block's operations in the buffer's last section
       C    == Pass1(desc, [has |-> S.has[n], data |-> S.data[n], seek |-> S.seek,
                           canon |-> IF n \in DOMAIN S.canon THEN S.canon[n] ELSE <<>>, out |-> <<>>, tail |-> <<>>,
-                          nlast |-> IF nlast = 0 THEN -1 ELSE nlast, tail0 |-> <<>>],
+                          nlast |-> IF nlast = 0 THEN -1 ELSE nlast, tail0 |-> <<>>, left |-> 0],
                     ops, S.live, F)
       S1   == [S EXCEPT !.has[n] = C.has, !.data[n] = C.data, !.seek = C.seek,
                         !.canon = IF desc.k = "enum" THEN [@ EXCEPT ![n] = C.canon] ELSE @]
@@ -246,28 +254,22 @@ ColPass(R, n, b, F) ==
   IN [S |-> P.S, fired |-> P.fired,
       bufs |-> [R.bufs EXCEPT ![n] = Rewrite(@, b, C.out) \o C.tail]]
 
-RECURSIVE ColsPass(_, _, _, _)
-ColsPass(R, names, b, F) ==
-  IF names = <<>> THEN R ELSE ColsPass(ColPass(R, Head(names), b, F), Tail(names), b, F)
-
+ColsPass(R, names, b, F) == FoldLeft(LAMBDA acc, n : ColPass(acc, n, b, F), R, names)
 
 \* ---- ghost: the per-row meaning of a block commit (what the properties promise), no buffers, no passes.
 \* For one row: it is live afterwards iff its last effective marker says so (or, without marker, it was live);
 \* a row that is not live holds nothing; a row deleted or inserted by this commit starts empty; then the
 \* commit's writes to each column are folded in issue order (merge of an absent value starts from zero).
-RECURSIVE FoldCol(_, _, _)
-FoldCol(desc, cur, ops) ==     \* cur = <<has, v>>
-  IF ops = <<>> THEN cur ELSE
-  LET e  == Head(ops)
-      nv == IF e.k = "mrg" THEN MergeFn(desc.m, IF cur[1] THEN cur[2] ELSE Zero(desc), e.v) ELSE e.v
-  IN FoldCol(desc, IF e.k = "skip" \/ e.x THEN cur
-                   ELSE IF desc.k = "bool" /\ nv = FALSE THEN <<FALSE, FALSE>> ELSE <<TRUE, nv>>, Tail(ops))
+FoldCol(desc, cur0, ops) ==     \* cur = <<has, v>>
+  FoldLeft(LAMBDA cur, e :
+             LET nv == IF e.k = "mrg" THEN MergeFn(desc.m, IF cur[1] THEN cur[2] ELSE Zero(desc), e.v) ELSE e.v IN
+             IF e.k = "skip" \/ e.x THEN cur
+             ELSE IF desc.k = "bool" /\ nv = FALSE THEN <<FALSE, FALSE>> ELSE <<TRUE, nv>>,
+           cur0, ops)
 
-RECURSIVE LiveAfter(_, _)
-LiveAfter(was, ops) ==         \* <<live, touched>>
-  IF ops = <<>> THEN was ELSE
-  LET e == Head(ops) IN
-  LiveAfter(IF e.x THEN was ELSE IF e.k = "ins" THEN <<TRUE, TRUE>> ELSE IF was[1] THEN <<FALSE, TRUE>> ELSE was, Tail(ops))
+LiveAfter(was0, ops) ==         \* <<live, touched>>
+  FoldLeft(LAMBDA was, e : IF e.x THEN was ELSE IF e.k = "ins" THEN <<TRUE, TRUE>> ELSE IF was[1] THEN <<FALSE, TRUE>> ELSE was,
+           was0, ops)
 
 GhostBlock(S, bufs, b) ==
   LET rowOf(o) == LiveAfter(<<o \in S.live, FALSE>>, OfOffset(OpsOfBlock(BufOps(bufs, "row"), b), o))
@@ -281,12 +283,16 @@ GhostBlock(S, bufs, b) ==
              ELSE FoldCol(S.reg[n], IF la[2] THEN <<FALSE, Zero(S.reg[n])>> ELSE S.gt[n][o],
                           OfOffset(OpsOfBlock(BufOps(bufs, n), b), o))]]
 
-ApplyBlock(S, bufs, b, id, F) ==
-  LET S0    == [Grow(S, b) EXCEPT !.lastId[b + 1] = id, !.gt = GhostBlock(S, bufs, b)]
+AddRuns(F, rs) == FoldLeft(LAMBDA acc, x : AddRun(acc, x[1], x[2]), F, SetToSeq(rs))
+
+ApplyBlockR(S, bufs, b, id, F, runs) ==
+  LET S0    == [Grow(S, b) EXCEPT !.lastId[b + 1] = id, !.gt = GhostBlock(S, bufs, b),
+                                  !.filler = AddRuns(@, {x \in runs : BlockOf(x[1]) = b})]
       noFire == [n \in DOMAIN S.tg |-> <<>>]
       R1    == RowPass([S |-> S0, fired |-> noFire], OpsOfBlock(BufOps(bufs, "row"), b), F)
       names == SetToSeq({n \in DOMAIN bufs : n # "row" /\ n \in DOMAIN S.reg})
   IN ColsPass([S |-> R1.S, fired |-> R1.fired, bufs |-> bufs], names, b, F)
+ApplyBlock(S, bufs, b, id, F) == ApplyBlockR(S, bufs, b, id, F, {})
 
 DevFlag == [ d \in {"D-dead-delete", "D-write-dead-row", "D-failed-insert-applied",
                     "D-merge-reads-stale", "D-swap-append", "D-stale-unkey", "D-enum-collision"} |->
@@ -319,7 +325,10 @@ IdleTxn == [pc |-> "idle", c |-> None, setup |-> FALSE,
             kop |-> [fn |-> "none", k |-> "", found |-> FALSE, o |-> 0, n |-> 0],  \* key operation in progress
             cur |-> -1,                  \* block whose latch is held
             fired |-> EmptyFn,           \* (observation) trigger calls made by the last Apply: trigger -> sequence
-            replay |-> FALSE]            \* the buffers were handed in by Replay / Restore
+            replay |-> FALSE,            \* the buffers were handed in by Replay / Restore
+            runs |-> {},                 \* runs of value-less rows inserted by this transaction (restore of filler)
+            sn |-> [nb |-> 0, blocks |-> <<>>, fail |-> FALSE],  \* snapshot in progress: blocks announced, blocks read
+            rs |-> [file |-> "none", pos |-> 0, trunc |-> FALSE]] \* restore in progress: file, items consumed
 
 Init == /\ st = [c \in Colls |-> EmptyStore]
         /\ txn = [t \in Actors |-> IdleTxn]
@@ -424,14 +433,15 @@ Blame(S, bufs, b, id) ==
       bl == {d \in ApplyKnown : Outcome(ApplyBlock(S, bufs, b, id, FlagsOf(ApplyKnown \ {d})), b) # full}
   IN IF bl = {} THEN ApplyKnown ELSE bl
 
-Apply(t, b, id, mode) ==
-  /\ txn[t].pc = "commit" /\ b \in txn[t].dirty
-  /\ LET c == txn[t].c
+\* T is the transaction record the step starts from (txn[t], or the item a restore has just loaded)
+ApplyT(t, T, b, id, mode) ==
+  /\ T.pc = "commit" /\ b \in T.dirty
+  /\ LET c == T.c
          S == st[c]
      IN /\ \A w \in S.wl : w[1] # b
         /\ id \notin used /\ id > 0 /\ id > Grow(S, b).lastId[b + 1]
-        /\ LET strict == ApplyBlock(S, txn[t].bufs, b, id, {})
-               full == ApplyBlock(S, txn[t].bufs, b, id, FlagsOf(ApplyKnown))
+        /\ LET strict == ApplyBlockR(S, T.bufs, b, id, {}, T.runs)
+               full == ApplyBlockR(S, T.bufs, b, id, FlagsOf(ApplyKnown), T.runs)
                same == Outcome(full, b) = Outcome(strict, b)
                r == IF mode = "strict" THEN strict ELSE full
                \* the physical layout of the rewritten buffers (which is not observable per row but decides how
@@ -444,19 +454,22 @@ Apply(t, b, id, mode) ==
                         !.strm = Append(@, Emitted(S, id, b, nb))]
            IN /\ mode = "asbuilt" => (ApplyKnown # {} /\ ~same)
               /\ st' = [st EXCEPT ![c] = S2]
-              /\ txn' = [txn EXCEPT ![t].pc = "latched", ![t].cur = b, ![t].bufs = nb,
-                                    ![t].reserved = {o \in @ : BlockOf(o) # b},
-                                    ![t].fired = r.fired]
-              /\ dev' = IF mode = "asbuilt" THEN dev \cup Blame(S, txn[t].bufs, b, id) ELSE dev
+              /\ txn' = [txn EXCEPT ![t] = [T EXCEPT !.pc = "latched", !.cur = b, !.bufs = nb,
+                                                     !.reserved = {o \in @ : BlockOf(o) # b},
+                                                     !.fired = r.fired]]
+              /\ dev' = IF mode = "asbuilt" THEN dev \cup Blame(S, T.bufs, b, id) ELSE dev
         /\ used' = used \cup {id}
   /\ UNCHANGED files
+
+Apply(t, b, id, mode) == ApplyT(t, txn[t], b, id, mode)
 
 \* release the latch; next block or done
 Unlatch(t) ==
   /\ txn[t].pc = "latched"
   /\ st' = [st EXCEPT ![txn[t].c].wl = {w \in @ : w # <<txn[t].cur, t>>}]
   /\ LET rest == txn[t].dirty \ {txn[t].cur} IN
-     txn' = IF rest = {} THEN [txn EXCEPT ![t] = [IdleTxn EXCEPT !.pc = "done", !.c = txn[t].c]]
+     txn' = IF rest = {} THEN [txn EXCEPT ![t] = [IdleTxn EXCEPT !.pc = IF txn[t].rs.file # "none" THEN "restoring" ELSE "done",
+                                                                !.c = txn[t].c, !.rs = txn[t].rs]]
             ELSE [txn EXCEPT ![t].pc = "commit", ![t].dirty = rest, ![t].cur = -1]
   /\ UNCHANGED <<used, files, dev>>
 
@@ -522,6 +535,130 @@ ReplayBegin(t, c, cm, ri) ==
   /\ UNCHANGED <<used, files>>
 
 -----------------------------------------------------------------------------
+(* Snapshot (Collection.Snapshot): install the recorder, announce the number of blocks, read block after  *)
+(* block (each under the block's read latch and the collection lock), detach the recorder, copy the       *)
+(* recorded commits behind the state.  A file is [nb, blocks, log].                                       *)
+
+Occupied(S) == S.fill \cup UNION {{x[2]} : x \in S.filler}
+BlockRuns(S, b) == {<<Clip(x[1], x[2], b)[1], Clip(x[1], x[2], b)[2]>> : x \in {x \in S.filler : BlockOf(x[1]) <= b /\ b <= BlockOf(x[2])}}
+BlockImage(S, b, rows) ==
+  [lastId |-> S.lastId[b + 1], rows |-> {o \in rows : BlockOf(o) = b}, runs |-> BlockRuns(S, b),
+   cols |-> [n \in DOMAIN S.reg |-> [o \in {o \in S.has[n] : BlockOf(o) = b} |->
+                                       IF S.reg[n].k = "bool" THEN TRUE ELSE S.data[n][o]]]]
+
+SnapOpen(t, c) ==
+  /\ txn[t].pc \in {"idle", "done"} /\ ~st[c].rec.open
+  /\ st' = [st EXCEPT ![c].rec = [open |-> TRUE, log |-> <<>>]]
+  /\ txn' = [txn EXCEPT ![t] = [IdleTxn EXCEPT !.pc = "snap.open", !.c = c]]
+  /\ UNCHANGED <<used, files, dev>>
+
+\* a snapshot refused because another one is in progress
+SnapBusy(t, c) ==
+  /\ txn[t].pc \in {"idle", "done"} /\ st[c].rec.open
+  /\ UNCHANGED vars
+
+\* the number of blocks is derived from the highest occupied offset (never more than have been committed); a
+\* collection whose rows have all been deleted may still announce its first (empty) block
+SnapBlocksChoices(S) ==
+  LET cap(n) == IF n < NBlocks(S) THEN n ELSE NBlocks(S) IN
+  IF Occupied(S) = {} THEN {0, cap(1)} ELSE {cap(BlockOf(MaxOf(Occupied(S))) + 1)}
+SnapHeader(t) ==
+  /\ txn[t].pc = "snap.open"
+  /\ \E nb \in SnapBlocksChoices(Coll(t)) :
+       txn' = [txn EXCEPT ![t].pc = "snap.blocks", ![t].sn = [@ EXCEPT !.nb = nb]]
+  /\ UNCHANGED <<st, used, files, dev>>
+
+\* one block: last commit id, occupied rows, every data column's present values
+SnapBlock(t) ==
+  /\ txn[t].pc = "snap.blocks" /\ Len(txn[t].sn.blocks) < txn[t].sn.nb
+  /\ LET S == Coll(t)
+         b == Len(txn[t].sn.blocks)
+     IN /\ \A w \in S.wl : w[1] # b
+        /\ \E mode \in Modes("D-inflight-insert-visible") :
+             LET rows == IF mode = "strict" THEN S.live ELSE S.fill IN
+             /\ mode = "asbuilt" => {o \in S.fill : BlockOf(o) = b} # {o \in S.live : BlockOf(o) = b}
+             /\ dev' = IF mode = "asbuilt" THEN dev \cup {"D-inflight-insert-visible"} ELSE dev
+             /\ txn' = [txn EXCEPT ![t].sn.blocks = Append(@, BlockImage(S, b, rows))]
+  /\ UNCHANGED <<st, used, files>>
+
+SnapClose(t) ==
+  /\ txn[t].pc = "snap.blocks" /\ Len(txn[t].sn.blocks) = txn[t].sn.nb
+  /\ txn' = [txn EXCEPT ![t].pc = "snap.copy"]
+  /\ st' = [st EXCEPT ![txn[t].c].rec = [@ EXCEPT !.open = FALSE]]
+  /\ UNCHANGED <<used, files, dev>>
+
+SnapCopy(t, name) ==
+  /\ txn[t].pc = "snap.copy"
+  /\ files' = [f \in DOMAIN files \cup {name} |->
+                  IF f = name THEN [nb |-> txn[t].sn.nb, blocks |-> txn[t].sn.blocks, log |-> Coll(t).rec.log] ELSE files[f]]
+  /\ txn' = [txn EXCEPT ![t] = [IdleTxn EXCEPT !.pc = "done", !.c = txn[t].c]]
+  /\ UNCHANGED <<st, used, dev>>
+
+\* the destination failed: Snapshot returns the error; the recorder must be detached again
+SnapFail(t) ==
+  /\ txn[t].pc \in {"snap.open", "snap.blocks", "snap.copy"}
+  /\ st' = [st EXCEPT ![txn[t].c].rec = [open |-> FALSE, log |-> <<>>]]
+  /\ txn' = [txn EXCEPT ![t] = [IdleTxn EXCEPT !.pc = "done", !.c = txn[t].c]]
+  /\ UNCHANGED <<used, files, dev>>
+
+-----------------------------------------------------------------------------
+(* Restore (Collection.Restore): every block of the file becomes one transaction that is committed, then    *)
+(* every recorded commit whose id exceeds the stored id of its block is replayed.  Items that change       *)
+(* nothing (an empty block, a filtered commit) leave no trace and are skipped.                             *)
+
+SeqOfSet(S) == SetToSortSeq(S, <)
+BlockBufs(B) ==
+  LET cols == {n \in DOMAIN B.cols : DOMAIN B.cols[n] # {}}
+      rowb == IF B.rows = {} THEN EmptyFn ELSE ("row" :> [i \in 1..Cardinality(B.rows) |-> Op("ins", SeqOfSet(B.rows)[i], 0)])
+  IN rowb @@ [n \in cols |-> LET os == SeqOfSet(DOMAIN B.cols[n]) IN [i \in DOMAIN os |-> Op("put", os[i], B.cols[n][os[i]])]]
+
+\* the items of a file, in the order Restore processes them: <<kind, block, bufs, runs, id>>
+FileItems(F) ==
+  [i \in 1..F.nb |-> [kind |-> "block", b |-> i - 1, bufs |-> BlockBufs(F.blocks[i]), runs |-> F.blocks[i].runs, id |-> 0]]
+  \o [i \in DOMAIN F.log |-> [kind |-> "commit", b |-> F.log[i].b,
+                               bufs |-> [n \in DOMAIN F.log[i].bufs |-> [j \in DOMAIN F.log[i].bufs[n] |-> F.log[i].bufs[n][j] @@ [x |-> FALSE]]],
+                               runs |-> {}, id |-> F.log[i].id]]
+Effective(F, it) ==
+  IF it.kind = "block" THEN DOMAIN it.bufs # {} \/ it.runs # {}
+  ELSE it.id > (IF it.b < F.nb THEN F.blocks[it.b + 1].lastId ELSE 0)
+
+RestoreBegin(t, c, name, trunc) ==
+  /\ txn[t].pc \in {"idle", "done"} /\ name \in DOMAIN files
+  /\ txn' = [txn EXCEPT ![t] = [IdleTxn EXCEPT !.pc = "restoring", !.c = c, !.rs = [file |-> name, pos |-> 0, trunc |-> trunc]]]
+  /\ UNCHANGED <<st, used, files, dev>>
+
+\* the transaction record for the next effective item, or the record unchanged if none is left
+NextEffective(F, pos) ==
+  LET its == FileItems(F)
+      cand == {i \in (pos + 1)..Len(its) : Effective(F, its[i])}
+  IN IF cand = {} THEN 0 ELSE MinOf(cand)
+RestoreLoaded(t) ==
+  LET F == files[txn[t].rs.file]
+      i == NextEffective(F, txn[t].rs.pos)
+      it == FileItems(F)[i]
+  IN [txn[t] EXCEPT !.pc = "commit", !.bufs = it.bufs, !.runs = it.runs, !.dirty = {it.b}, !.replay = TRUE,
+                    !.rs = [@ EXCEPT !.pos = i]]
+RestoreCanLoad(t) == txn[t].pc = "restoring" /\ NextEffective(files[txn[t].rs.file], txn[t].rs.pos) # 0
+
+\* a restoring actor's Apply: load the next effective item and commit it
+RestoreApply(t, b, id, mode) ==
+  /\ RestoreCanLoad(t)
+  /\ ApplyT(t, RestoreLoaded(t), b, id, mode)
+
+\* Restore returns. Without error every effective item has been applied. With a truncated file it may stop
+\* early, but only after whole items, in order (what has been applied is a prefix); it reports an error
+\* unless it stopped exactly where the truncated file ends at an item boundary of the log.
+RestoreEnd(t, err) ==
+  /\ txn[t].pc = "restoring"
+  /\ LET F == files[txn[t].rs.file]
+         left == NextEffective(F, txn[t].rs.pos)
+     IN IF txn[t].rs.trunc
+          THEN ~err => (left = 0 \/ FileItems(F)[left].kind = "commit")   \* all blocks restored, a prefix of the log
+          ELSE ~err /\ left = 0
+  /\ txn' = [txn EXCEPT ![t] = [IdleTxn EXCEPT !.pc = "done", !.c = txn[t].c]]
+  /\ UNCHANGED <<st, used, files, dev>>
+
+-----------------------------------------------------------------------------
 (* Schema changes (sequential, between transactions)                        *)
 
 CreateColumn(c, n, desc) ==
@@ -571,22 +708,6 @@ SetTransport(c, tp) ==
 (* BulkInsert: one transaction inserting the rows lo..hi (empty callbacks); *)
 (* BulkDelete: one transaction deleting lo..hi. ids[i] is the id of the     *)
 (* commit for the i-th block touched, ascending.                            *)
-
-BlocksOf(lo, hi) == BlockOf(lo)..BlockOf(hi)
-Clip(lo, hi, b) == <<IF lo > b * BlockSize THEN lo ELSE b * BlockSize,
-                     IF hi < (b + 1) * BlockSize - 1 THEN hi ELSE (b + 1) * BlockSize - 1>>
-
-\* insert the run, merging with adjacent runs so that runs stay maximal
-AddRun(F, lo, hi) ==
-  LET left  == {x \in F : x[2] = lo - 1}
-      right == {x \in F : x[1] = hi + 1}
-      nlo == IF left = {} THEN lo ELSE (CHOOSE x \in left : TRUE)[1]
-      nhi == IF right = {} THEN hi ELSE (CHOOSE x \in right : TRUE)[2]
-  IN (F \ (left \cup right)) \cup {<<nlo, nhi>>}
-\* remove lo..hi from the runs (the range lies inside one run)
-CutRun(F, lo, hi) ==
-  LET x == CHOOSE x \in F : x[1] <= lo /\ hi <= x[2] IN
-  (F \ {x}) \cup (IF x[1] < lo THEN {<<x[1], lo - 1>>} ELSE {}) \cup (IF hi < x[2] THEN {<<hi + 1, x[2]>>} ELSE {})
 
 BulkCommits(S, ids, k, lo, hi) ==
   [i \in 1..Len(ids) |-> [id |-> ids[i], b |-> BlockOf(lo) + i - 1, bulk |-> <<k>> \o Clip(lo, hi, BlockOf(lo) + i - 1)]]
